@@ -35,7 +35,7 @@ CHECKS = {
          "Every tree of the stated grammar (operators x boundary operand pairs; all trees to depth 3, wrapped and unwrapped) is folded by the real constant folder and compared structurally with a reference folder written on the harness's own tree type with independent 256-bit arithmetic; idempotence, size bookkeeping and totality are checked on each. Complete within the grammar, which contains every one-operator mistake (wrong constructor, wrong operand order, wrong boundary rule).",
          "trusts ref_u256 (cross-checked against Python big integers at setup) and the crate's PartialEq on values; says nothing about operands outside the boundary set", "3/C09"),
  "C11": ("exploration", "E2-programs", "exhaustive pairwise composition and renumbering of a fragment family (relational check on the real pipeline)",
-         "All ordered pairs of a 133-fragment (thorough: 187) family (idioms, 17 environment leaves and 3 shared constants x 4 uses, 11 hand-written evidence fragments) x 3 dispatcher shapes x 2 slot assignments x {strict, permissive} are analysed separately and combined, and two-fragment programs under all 30 injective slot renumberings: the combined layout must be the union, a fragment's own layout must only name its own slot, the renumbered layout must be the renumbered original.",
+         "All ordered pairs of a 133-fragment (thorough: 187) family (idioms, 17 environment leaves and 3 shared constants x 4 uses, 11 hand-written evidence fragments) x 4 dispatcher shapes (selector compare, reversed, chained, literal conditions) x 2 slot assignments x {strict, permissive} are analysed separately and combined, and two-fragment programs under all 30 injective slot renumberings: the combined layout must be the union, a fragment's own layout must only name its own slot, the renumbered layout must be the renumbered original.",
          "fragments come from the C04 generator plus hand-written multi-evidence fragments", "3/C11"),
  "C12": ("exploration", "E2-programs", "bounded exhaustive enumeration of mask-and-shift programs with boundary shift amounts; structural oracle on every returned layout",
          "All stack-safe sequences up to length 4 (5) over 37 mask / shift / divide / multiply tokens with shift amounts 0..2^64-1 16 pipeline templates x B x B the nested sub-word family (a field taken out of a field, ~41 000 programs), typed uses of a narrow field and width operands up to 65 535: every returned layout must be ordered by (slot, offset) with every entry starting and, when its width is known, ending inside the 256-bit slot.",
